@@ -40,12 +40,25 @@ Definition obs_eqb (a b : obs) : bool :=
 Definition w_init : wstate := mkW 0 None false false.
 
 (* ---- model = implementation ---------------------------------------------------- *)
+(* the brute-force decision of "no complete report in s" (Spec, used by spec_ok) agrees with the
+   scanner's, which theorem C18_no_report_decidable proves equivalent to no_report *)
+Definition decide_agree (s : str) : bool :=
+  Bool.eqb (match first_report s with None => true | Some _ => false end)
+           (match search s with None => true | Some _ => false end).
+
 Definition model_ok (c : case) : bool :=
   match c with
   | CRegex src => str_eqb src (cursor_regex_src ++ [32; 114; 101; 46; 68; 79; 84; 65; 76; 76])  (* " re.DOTALL" *)
-  | CHist ops impl => list_eqb obs_eqb (run_ops w_init [] ops) impl
-  | CParse cb _ _ _ _ pre trail impl =>
-      list_eqb obs_eqb (run_ops w_init [] [OpPos cb (St (pre ++ trail))]) [impl]
+  | CHist ops impl =>
+      list_eqb obs_eqb (run_ops w_init [] ops) impl &&
+      (* the two deciders of "contains a complete report" agree on every stream offered *)
+      forallb (fun o => match o with
+                        | OpPos _ s | OpDiff _ s => decide_agree (chars_of s)
+                        | _ => true
+                        end) ops
+  | CParse cb extra _ _ _ pre trail impl =>
+      list_eqb obs_eqb (run_ops w_init [] [OpPos cb (St (pre ++ trail))]) [impl] &&
+      decide_agree extra
   end.
 
 (* ---- the property, judged on the implementation's observations ------------------ *)
